@@ -79,6 +79,7 @@ type pathState struct {
 	assertQueries  int
 	queryHook      func(label string, pc []T, neg T, r smt.Result) // thorough: cross-solver
 	crossChecked   int
+	crossUnknown   int
 	crossDisagree  []string
 	stopOnViolation bool
 	stubs           map[*ssa.Function]*ssa.Function
